@@ -18,6 +18,8 @@
  */
 
 use crate::addr::NetAddr;
+#[cfg(erbium_verif)]
+use crate::sim::{nix, tokio};
 use std::os::unix::io::{OwnedFd, RawFd};
 
 pub fn std_to_libc_in_addr(addr: std::net::Ipv4Addr) -> libc::in_addr {
